@@ -184,9 +184,11 @@ func (c *EvalCtx) evalIdent(name string) Val {
 func (c *EvalCtx) localByName(name string) (Val, bool) {
 	want := 1
 	base := name
-	if i := strings.Index(name, "#"); i >= 0 {
-		base = name[:i]
-		want, _ = strconv.Atoi(name[i+1:])
+	if i := strings.Index(name, "__"); i > 0 {
+		if n, err := strconv.Atoi(name[i+2:]); err == nil {
+			base = name[:i]
+			want = n
+		}
 	}
 	fn := c.fr.fn
 	n := 0
@@ -544,11 +546,7 @@ func (c *EvalCtx) evalCall(x *ast.CallExpr) Val {
 	}
 	// ghost fields
 	if g, ok := fe.eng.voc.Ghost[fname]; ok {
-		obj := termOf(c.eval(args[0]))
-		key := obj
-		if g.Key != "" {
-			key = sx(sym(g.Key), obj)
-		}
+		key := c.ghostKey(g, args)
 		sel := sx("select", fe.heapGet(c.st, "ghost."+g.Name, g.Sort), key)
 		if g.Sort == "Bool" {
 			return BoolV{sel}
@@ -608,6 +606,25 @@ func (c *EvalCtx) evalCall(x *ast.CallExpr) Val {
 	return c.fail("unknown function %q in contract expression", fname)
 }
 
+// ghostKey builds the map key of a ghost field application g(a1, ..., an).
+func (c *EvalCtx) ghostKey(g *GhostField, args []ast.Expr) Term {
+	obj := termOf(c.eval(args[0]))
+	key := obj
+	if g.Key != "" {
+		key = sx(sym(g.Key), obj)
+	}
+	if len(args) > 1 {
+		ts := []Term{key}
+		for _, a := range args[1:] {
+			ts = append(ts, termOf(c.eval(a)))
+		}
+		fn := fmt.Sprintf("pair%d", len(ts))
+		c.fe.eng.noteUFun(fn, len(ts))
+		key = sx(fn, ts...)
+	}
+	return key
+}
+
 func (fe *FnExec) tidByName(name string) int {
 	if n, ok := fe.tids[name]; ok {
 		return n
@@ -636,11 +653,7 @@ func (fe *FnExec) assignLvalue(ctx *EvalCtx, st *State, x *CExpr, nv Val) {
 	case *ast.CallExpr:
 		if id, ok := l.Fun.(*ast.Ident); ok {
 			if g, ok := fe.eng.voc.Ghost[id.Name]; ok {
-				obj := termOf(ctx.eval(l.Args[0]))
-				key := obj
-				if g.Key != "" {
-					key = sx(sym(g.Key), obj)
-				}
+				key := ctx.ghostKey(g, l.Args)
 				hn := "ghost." + g.Name
 				var t Term
 				if nv != nil {
